@@ -150,6 +150,11 @@ class Paths:
                 return True
             if isinstance(fn, ast.Attribute) and fn.attr in ("copy", "union", "difference", "intersection"):
                 return True  # (keys()/values()/items() and ChainMap(...) are live views, not copies)
+            if id(e) in self.an.spliced_at:
+                # a helper spliced in here that builds and returns a container of its own (`out = dict(a); out.update(b); return out`)
+                t = self.an.spliced_at[id(e)]
+                rets = [r.value for r in self.an.scope(t)._own_nodes() if isinstance(r, ast.Return)]
+                return bool(rets) and all(r is not None and Paths(self.an, t).is_copy(r, _depth + 1) for r in rets)
             return False
         if isinstance(e, ast.BinOp) and isinstance(e.op, (ast.BitOr, ast.BitAnd, ast.Sub, ast.Add)):
             return True
